@@ -69,6 +69,7 @@ type Session struct {
 	Pushes    [][]string // every push frame sent to this session, in order: kind followed by its string arguments ("<nil>" for null)
 	asking    bool
 	pendInval []string // self invalidations delivered after the current reply
+	bcastPend []string // Server.BcastBatch: keys of the running command to announce to this broadcast-mode session in one push
 	executing bool
 	HelloSeen bool
 }
@@ -101,7 +102,11 @@ type Server struct {
 	// BetweenPushes, when set, is called after each but the last confirmation of a multi-channel (P|S)SUBSCRIBE:
 	// an environment deviation that lets other pushes land between two confirmations on the wire
 	BetweenPushes func(ss *Session, kind, channel string)
-	FailCmd       map[string]string // upper-case command (or "CLIENT TRACKING" style two-word) -> error text to reply
+	// BcastBatch (opt-in): invalidations for sessions tracking in broadcast mode are collected while a command runs and
+	// delivered after it as ONE push carrying all its keys, in modification order (Redis announces the keys written
+	// under a prefix during one event-loop cycle in a single push; other modes always get one key per push)
+	BcastBatch bool
+	FailCmd    map[string]string // upper-case command (or "CLIENT TRACKING" style two-word) -> error text to reply
 	// ActiveExpire (opt-in, needs After): keys with a TTL are removed on their own at their expiry time, like Redis'
 	// active expiry cycle (idealised: exactly on time), so tracking clients get the invalidation although nobody
 	// touches the key. Default off: keys expire lazily on the next command.
@@ -250,7 +255,9 @@ func (s *Server) touch(db int, k string, writer *Session) {
 				match = true
 			}
 		}
-		if match {
+		if match && s.BcastBatch {
+			t.bcastPend = append(t.bcastPend, k)
+		} else if match {
 			s.sendInval(t, k, writer)
 		}
 	}
@@ -347,6 +354,19 @@ func (s *Server) Feed(ss *Session, argv []string) {
 		ss.Out(Encode(nil, r, ss.V3))
 	}
 	s.flushPendInval(ss)
+	s.flushBcast()
+}
+
+func (s *Server) flushBcast() {
+	for _, t := range s.Sessions {
+		if len(t.bcastPend) > 0 {
+			keys := t.bcastPend
+			t.bcastPend = nil
+			if !t.Closed {
+				t.push(Push(Bulk("invalidate"), Strs(keys...)))
+			}
+		}
+	}
 }
 
 func (s *Server) flushPendInval(ss *Session) {
@@ -364,6 +384,7 @@ func (s *Server) Do(argv ...string) Reply {
 	oob := &Session{ID: -1, srv: s, Out: func([]byte) {}, User: "default", V3: true, watching: map[string]int64{}, Authed: true}
 	s.expireDue()
 	r, _ := s.exec(oob, argv)
+	s.flushBcast()
 	return r
 }
 
